@@ -7,7 +7,7 @@ edges that contradict env are infeasible.  That is what keeps the repository's
 `goto done; ... if (ret_value == FAIL) {cleanup}` idiom from producing
 infeasible-path reports.
 """
-from .facts import kind, strip, unseen, walk, path, int_val, is_int, AnalysisBroken
+from .facts import kind, strip, unseen, walk, path, int_val, is_int, AnalysisBroken, render
 
 ERR_MACROS = {"HGOTO_ERROR", "HRETURN_ERROR", "HE_REPORT_GOTO", "HE_REPORT_RETURN", "HGOTO_FAIL",
               "HCLOSE_GOTO_ERROR", "HE_CLOSE_REPORT_GOTO", "HE_CLOSE_REPORT_RETURN"}
@@ -119,6 +119,9 @@ class PathAnalysis:
                 return env.get(t[1])
             return self.eval(e[3], env)
         if k == "call":
+            ck = "$r:%s:%d:%d" % call_key(e)
+            if ck in env:
+                return env[ck]
             return ("r", call_key(e))
         if k == "cond":
             t = self.truth(e[1], env)
@@ -152,6 +155,10 @@ class PathAnalysis:
         if kind(c) == "un" and c[1] == "!":
             t = self.truth(c[2], env)
             return None if t is None else (not t)
+        if kind(c) == "bin" and c[1] in CMP:
+            v = env.get("$cmp:" + render_key(c))
+            if v is not None:
+                return bool(v[1])
         l, op, r = normalise_cmp(c)
         if l is None:
             return None
@@ -254,6 +261,14 @@ class PathAnalysis:
         if u2 is self.INFEASIBLE:
             return None
         user = u2
+        if k == "bin" and c[1] in CMP and any(x[0] == "call" for x in walk(c, True)):
+            # remember how this comparison came out (it is re-evaluated when a `?:` built on it is consumed)
+            ck = "$cmp:" + render_key(c)
+            prev = env.get(ck)
+            if prev is not None and prev[1] != (1 if pol else 0):
+                return None
+            env = dict(env)
+            env[ck] = ("c", 1 if pol else 0)
         # stable-field correlation
         lhs, op, rhs = normalise_cmp(c)
         if lhs is None:
@@ -279,6 +294,14 @@ class PathAnalysis:
         elif kind(l) == "var":
             target = l[1]
             lv = env.get(target)
+        elif kind(l) == "call":
+            # a call result compared in place: remember the outcome under a pseudo-variable so that a macro like
+            # `(f(x) == 0 ? SUCCEED : FAIL) == FAIL` is evaluated consistently at the join
+            target = "$r:%s:%d:%d" % call_key(l)
+            lv = env.get(target)
+            if lv is None:
+                lv = ("r", call_key(l))
+                calls.setdefault(call_key(l), l)
         elif kind(l) == "bin" and l[1] == "&" and kind(strip(l[2])) == "var" and is_int(l[3]) and self.eval(l, env) is None:
             # `v & CONST` on a local/parameter: remember the outcome so that a later identical test is correlated
             target = "$%s&%d" % (strip(l[2])[1], int_val(l[3]))
@@ -451,6 +474,21 @@ def _in_rng(r, n):
     return (r[1] is None or r[1] <= n) and (r[2] is None or n <= r[2])
 
 
+def render_key(c):
+    """stable text key of a comparison (call positions make it unique)"""
+    out = []
+    for x in walk(c, True):
+        if x[0] == "call":
+            out.append("%s@%d:%d" % (x[1], x[5], x[6]))
+        elif x[0] == "int":
+            out.append(str(x[1]))
+        elif x[0] == "var":
+            out.append(x[1])
+        elif x[0] == "bin":
+            out.append(x[1])
+    return "|".join(out)
+
+
 def freeze(env):
     return tuple(sorted(env.items()))
 
@@ -489,6 +527,12 @@ def normalise_cmp(c):
 def outcome_of(call, op, n, prog):
     """Does `call <op> n` being true mean the call failed / succeeded?"""
     rt = call[4]
+    if rt == "hdf_err_code_t":  # returns DFE_NONE (0) on success, an error code otherwise
+        if (op == "!=" and n == 0):
+            return "fail"
+        if (op == "==" and n == 0):
+            return "ok"
+        return None
     fv = default_fail(rt, prog)
     if not fv:
         return None
